@@ -395,6 +395,42 @@ pub fn c13(tier: &str, seed: u64) {
         }
         case(true);
       }
+      // tampering at the level of proof BYTES: the same residues in a non-canonical encoding
+      // (x + k*l) are different bytes and must not verify (refused at decoding or by verify)
+      {
+        const ELL: [u8; 32] = [0xed, 0xd3, 0xf5, 0x5c, 0x1a, 0x63, 0x12, 0x58, 0xd6, 0x9c, 0xf7, 0xa2, 0xde, 0xf9, 0xde, 0x14, 0, 0, 0, 0, 0, 0, 0, 0, 0, 0, 0, 0, 0, 0, 0, 0x10];
+        let honest = ev.proof.as_ref().unwrap().serialize_to_bincode().unwrap();
+        for (which, off) in [("c", 0usize), ("s", 32)] {
+          for times in [1usize, 3] {
+            let mut b = honest.clone();
+            let mut ok = true;
+            for _ in 0..times {
+              let mut carry = 0u16;
+              for i in 0..32 {
+                let t = b[off + i] as u16 + ELL[i] as u16 + carry;
+                b[off + i] = t as u8;
+                carry = t >> 8;
+              }
+              ok &= carry == 0;
+            }
+            if !ok {
+              continue;
+            }
+            let accepted = std::panic::catch_unwind(std::panic::AssertUnwindSafe(|| match ppoprf::ppoprf::ProofDLEQ::load_from_bincode(&b) {
+              Ok(p2) => Client::verify(&pk, &bp, &Evaluation { output: ev.output.clone(), proof: Some(p2) }, md),
+              Err(_) => false,
+            }));
+            stat("c13.tamper.noncanonical_scalar_bytes");
+            if accepted.as_ref().ok() != Some(&false) {
+              fail(
+                if accepted.is_err() { "verify_panicked" } else { "tampered_proof_accepted" },
+                &[("tamper", format!("proof bytes: scalar {} + {}*l (non-canonical encoding)", which, times)), ("proof_bytes", hex(&b)), ("honest_proof_bytes", hex(&honest)), ("md", md.to_string())],
+              );
+            }
+            case(true);
+          }
+        }
+      }
       // a non-verifiable evaluation never verifies
       if let Ok(ev0) = server.eval(&bp, md, false) {
         if ev0.proof.is_some() || verify_ans(&pkb, bp.as_bytes(), ev0.output.as_bytes(), &None, md) != "ok F" {
@@ -554,8 +590,14 @@ pub fn c14(tier: &str, seed: u64) {
       } else if op < 94 {
         let (src, dst) = (*g.pick(&live), g.below(NSLOTS as u64) as usize);
         let exported = op >= 86;
+        // an import lands in the server already sitting in the destination slot (whatever key, tags
+        // and punctures it has), when there is one
+        let existing = if exported && dst != src { slots[dst].take().map(|x| x.server) } else { None };
+        if existing.is_some() {
+          stat("c14.op.import_into_used_server");
+        }
         let s = slots[src].as_ref().unwrap();
-        let copy = if exported { export_import(&s.server) } else { s.server.clone() };
+        let copy = if exported { export_import_into(&s.server, existing) } else { s.server.clone() };
         trace.push(format!("{}:{}:{}", if exported { "xi" } else { "cl" }, src, dst));
         let new_slot = Slot { server: copy, key_id: s.key_id, registered: s.registered.clone(), punctured: s.punctured.clone() };
         // indistinguishable at the moment of the copy: internal state, public key, every tag
